@@ -1,6 +1,8 @@
 import TempestVerif.Drv.Util
 import TempestVerif.Model.Ess
 import TempestVerif.Model.Trim
+import TempestVerif.Model.TrimSites
+import TempestVerif.Model.VolVar
 /- line-protocol handlers of property C20 (ESS, percentile/linspace mirrors, weight trimming) -/
 namespace Drv.C20
 open Drv Model.Ess Model.Trim
@@ -68,7 +70,7 @@ def trimCmd (α : Type) [Sc α] [Codec α] (args : List (String × String)) : St
     | _, _ => "none"
   | _, _, _ => "bad-op"
 
-def handle (cmd : String) (args : List (String × String)) : Option String :=
+def handle0 (cmd : String) (args : List (String × String)) : Option String :=
   match cmd with
   | "ess.F" => some (essCmd Float args)
   | "ess.Q" => some (essCmd Rat args)
@@ -80,5 +82,99 @@ def handle (cmd : String) (args : List (String × String)) : Option String :=
   | "trim.F" => some (trimCmd Float args)
   | "trim.Q" => some (trimCmd Rat args)
   | _ => none
+
+/-! ### clause-audit additions: volume metric (executable model), call sites, `-inf` log-weights -/
+
+/-- split a flat row-major list into rows of length `d` (`n` rows) -/
+def toRows {β : Type} (d : Nat) : Nat → List β → List (List β)
+  | 0, _ => []
+  | n + 1, l => l.take d :: toRows d n (l.drop d)
+
+def showBranch : Model.VolVar.Branch → String
+  | .tooFew => "tooFew"
+  | .main => "main"
+  | .ridge => "ridge"
+  | .singular => "singular"
+
+def getW (α : Type) [Codec α] (args : List (String × String)) : Option (Option (List α)) :=
+  match getArg args "w" with
+  | some "none" => some none
+  | some s => (parseList? (Codec.parse (α := α)) s).map some
+  | none => none
+
+/-- the inverse the model used on the branch it took (for the harness to check `S · S⁻¹ = 1` exactly) -/
+def usedInverse {α : Type} [Sc α] (d : Nat) (x : List (List α)) (w0 : Option (List α)) : Option (List (List α)) :=
+  let w := normalise (match w0 with
+    | none => List.replicate x.length Sc.one
+    | some w => w)
+  let xc := Model.VolVar.centre x (Model.VolVar.wmean d x w)
+  let cov := Model.VolVar.wcov d xc w
+  match Model.Student.inv cov with
+  | some B => some B
+  | none => Model.Student.inv (Model.VolVar.addRidge cov (Sc.mul (Sc.lit 1 6) (Model.VolVar.trace cov)))
+
+/-- `volvar.Q n=<nat> d=<nat> x=<n·d scalars, row major> w=<scalars|none>` → `<branch> <radicand> <inverse used, row major | ->` -/
+def volvarQCmd (args : List (String × String)) : String :=
+  match getNat args "n", getNat args "d", getList Rat args "x", getW Rat args with
+  | some n, some d, some xs, some w0 =>
+    let x := toRows d n xs
+    let o := Model.VolVar.out d x w0
+    let inv := if n < d + 1 then "-" else match usedInverse d x w0 with
+      | some B => showList Codec.shw B.flatten
+      | none => "-"
+    s!"{showBranch o.branch} {Codec.shw o.radicand} {inv}"
+  | _, _, _, _ => "bad-op"
+
+/-- `volvar.F n= d= x= w=` → `<branch> <volume_variation>` -/
+def volvarFCmd (args : List (String × String)) : String :=
+  match getNat args "n", getNat args "d", getList Float args "x", getW Float args with
+  | some n, some d, some xs, some w0 =>
+    let x := toRows d n xs
+    s!"{showBranch (Model.VolVar.out d x w0).branch} {showFloat (Model.VolVar.volvar d x w0)}"
+  | _, _, _, _ => "bad-op"
+
+/-- `cess.E logw=<floats, -inf allowed>` → `compute_ess` with `-inf ↦ none` | `none` -/
+def cessECmd (args : List (String × String)) : String :=
+  match getList Float args "logw" with
+  | some l =>
+    let lw : List (Option Float) := l.map fun v => if v == -(1.0 / 0.0) then none else some v
+    match Model.TrimSites.computeEssE lw with
+    | some v => showFloat v
+    | none => "none"
+  | none => "bad-op"
+
+/-- `site.train betazero=<0|1> w=<scalars> ess=<scalar> bins=<nat>` (history rows are the tags `1000+i`) →
+    `early <weights after>` | `fit <kept tags> <weights handed over> <weights after>` | `none` -/
+def siteTrainCmd (α : Type) [Sc α] [Codec α] (args : List (String × String)) : String :=
+  match getNat args "betazero", getList α args "w", (getArg args "ess").bind (Codec.parse (α := α)), getNat args "bins" with
+  | some bz, some w, some e, some bins =>
+    let u := (List.range w.length).map (· + 1000)
+    match Model.TrimSites.trainerRun (bz == 1) u w e bins with
+    | some (none, wa) => s!"early {showList Codec.shw wa}"
+    | some (some (uk, wt), wa) => s!"fit {showList toString uk} {showList Codec.shw wt} {showList Codec.shw wa}"
+    | none => "none"
+  | _, _, _, _ => "bad-op"
+
+/-- `site.metric vv=<0|1> n= d= x=<history rows> logw=<floats>` → `<weights> <ess> <metric>` | `none` -/
+def siteMetricCmd (args : List (String × String)) : String :=
+  match getNat args "vv", getNat args "n", getNat args "d", getList Float args "x", getList Float args "logw" with
+  | some vv, some n, some d, some xs, some lw =>
+    let u := toRows d n xs
+    let f : Option (List (List Float) → List Float → Float) :=
+      if vv == 1 then some (fun u w => Model.VolVar.volvar d u (some w)) else none
+    match Model.TrimSites.metricAndWeights f u lw with
+    | some (w, e, m) => s!"{showList showFloat w} {showFloat e} {showFloat m}"
+    | none => "none"
+  | _, _, _, _, _ => "bad-op"
+
+def handle (cmd : String) (args : List (String × String)) : Option String :=
+  match cmd with
+  | "volvar.Q" => some (volvarQCmd args)
+  | "volvar.F" => some (volvarFCmd args)
+  | "cess.E" => some (cessECmd args)
+  | "site.train.F" => some (siteTrainCmd Float args)
+  | "site.train.Q" => some (siteTrainCmd Rat args)
+  | "site.metric.F" => some (siteMetricCmd args)
+  | _ => handle0 cmd args
 
 end Drv.C20
